@@ -240,7 +240,7 @@ func (u *SPDX23) packageToNode(p *spdx23.Package) *sbom.Node {
 	// return the supplier and originator emails as a separate field. Perhaps
 	// we should upstream a fix for that.
 	if p.PackageSupplier != nil && p.PackageSupplier.Supplier != protospdx.NOASSERTION {
-		_, name, email := protospdx.ParseActorString(p.PackageSupplier.Supplier)
+		_, name, email := protospdx.ParseActorString(actorString(p.PackageSupplier.SupplierType, p.PackageSupplier.Supplier))
 		n.Suppliers = []*sbom.Person{{Name: name, Email: email}}
 		if p.PackageSupplier.SupplierType == protospdx.Organization {
 			n.Suppliers[0].IsOrg = true
@@ -248,7 +248,7 @@ func (u *SPDX23) packageToNode(p *spdx23.Package) *sbom.Node {
 	}
 
 	if p.PackageOriginator != nil && p.PackageOriginator.Originator != protospdx.NOASSERTION && p.PackageOriginator.Originator != "" {
-		_, name, email := protospdx.ParseActorString(p.PackageOriginator.Originator)
+		_, name, email := protospdx.ParseActorString(actorString(p.PackageOriginator.OriginatorType, p.PackageOriginator.Originator))
 		n.Originators = []*sbom.Person{{Name: name, Email: email}}
 		if p.PackageOriginator.OriginatorType == protospdx.Organization {
 			n.Originators[0].IsOrg = true
@@ -256,6 +256,16 @@ func (u *SPDX23) packageToNode(p *spdx23.Package) *sbom.Node {
 	}
 
 	return n
+}
+
+// actorString puts the actor type the SPDX library has already split off back
+// in front of the actor, so that ParseActorString strips exactly that type and
+// not a "Person:" or "Organization:" the name itself may start with.
+func actorString(actorType, actor string) string {
+	if actorType == protospdx.Person || actorType == protospdx.Organization {
+		return actorType + ": " + actor
+	}
+	return actor
 }
 
 // spdxDateToTime is a utility function that turns a date into a go time.Time
